@@ -90,7 +90,7 @@ def build_ocaml():
     srcs = [os.path.join(VERIF, "ocaml", f) for f in os.listdir(os.path.join(VERIF, "ocaml"))
             if f.endswith((".ml", ".v", ".sh")) and f not in ("model.ml",)]
     vos = [os.path.join(COQ, f) for f in os.listdir(COQ) if f.endswith(".vo")]
-    targets = [os.path.join(BUILD, t) for t in ("flatrun", "treerun", "indexrun", "rorun", "crashrun", "codecrun", "histrun", "faultrun", "iterrun", "syncrun", "concrun", "refsrun")]
+    targets = [os.path.join(BUILD, t) for t in ("flatrun", "treerun", "indexrun", "rorun", "crashrun", "codecrun", "histrun", "histtreerun", "faultrun", "iterrun", "syncrun", "concrun", "refsrun", "ownersrun", "opsrun")]
     if all(os.path.exists(t) for t in targets) and \
             min(os.path.getmtime(t) for t in targets) > newest_mtime(srcs + vos):
         return True, "up to date"
